@@ -530,6 +530,26 @@ def stayin_stream(ctx, real, quick):
     return bad == 0
 
 
+def listed_api_findings(ctx, real):
+    """The API history of the finding listed for C05 (KNOWN_FINDINGS: api:selectaggregate-shallowcopy-double-ownership): a
+    SelectAggregate with one element, ShallowCopy into a second one, both destroyed.  The class is decided by the call
+    sequence (this request), not by the symptom: a memory error in ~SelectNode here is that finding; any other failure of
+    the same driver is reported under its own key."""
+    a = real.run_fn([f"shallowcopy {hexs(b'Sel')}"])[0]
+    ctx.count(1, key=("fn", "shallowcopy"))
+    if isinstance(a, dict):
+        err = a.get("err", "")
+        if a["fail"] in ("attempting", "double-free", "heap-use-after-free") and "SelectNode::~SelectNode" in err:
+            ctx.violation("api:selectaggregate-shallowcopy-double-ownership",
+                          "SelectAggregate::ShallowCopy + destruction of both aggregates: the select of the copied node is deleted twice "
+                          f"({a['fail']} in {a['where']})",
+                          {"kind": "fn", "schema": real.schema, "request": f"shallowcopy {hexs(b'Sel')}", "sanitizer": err[-1200:]})
+        else:
+            ctx.violation(f"fn:shallowcopy:{a['fail']}@{a['where']}", f"ShallowCopy driver: {a['fail']} in {a['where']}",
+                          {"kind": "fn", "schema": real.schema, "request": f"shallowcopy {hexs(b'Sel')}", "sanitizer": err[-1200:]})
+    ctx.cov["correspondence"]["listed API finding (ShallowCopy)"] = a if isinstance(a, str) else a.get("fail")
+
+
 def stream_kind(ctx, real, quick):
     """The function-level correspondence runs on std::istringstream, the file-level reader on std::ifstream.  A filebuf reads
     block-wise and has a one-byte putback area at a block boundary (and its pbackfail accepts a *different* character,
@@ -1457,6 +1477,7 @@ def run(ctx):
             stream_kind(ctx, real, quick)
             pass2_stream(ctx, real, quick)
             stayin_stream(ctx, real, quick)
+            listed_api_findings(ctx, real)
         file_level(ctx, real, files, quick, ms_per_byte)
         attr_exhaustive(ctx, real, quick, ms_per_byte)
         aggr_exit_stream(ctx, real, quick, ms_per_byte)
